@@ -232,7 +232,7 @@ def node_relay_probe(ck, tier, tags):
     from skepticoin.networking import messages as M
     rng = ck.rng
     keys = chaingen.Keys()
-    for situation in ('idle', 'fetch-round-open', 'bulk-download-pending'):
+    for situation in ('idle', 'fetch-round-open', 'bulk-download-pending', 'after-own-found-block'):
         with chaingen.Env(period=50) as env:
             tg = chaingen.TreeGen(env, keys, rng)
             n = tg.genesis
@@ -248,6 +248,14 @@ def node_relay_probe(ck, tier, tags):
                     sn.pump()
                     asked = sum(1 for msgs in sn.new_messages() for (k, _i, _r) in msgs if k == 'GetBlocksMessage')
                     ck.count('node-probe/block-requests-open', asked)
+                elif situation == 'after-own-found-block':
+                    # the head is a block the node's own miner just found: a rejected block must leave it where it is
+                    import check_C12
+                    found = check_C12.mine_one(sn, net, keys, tg, head)
+                    if found is None or found.id not in sn.observe()['blocks']:
+                        continue
+                    head = found
+                    sn.new_messages()
                 elif situation == 'bulk-download-pending':
                     for _ in range(2):
                         head = tg.extend(head, txs=[], fees=0, dt=100)
@@ -266,6 +274,13 @@ def node_relay_probe(ck, tier, tags):
                     after = sn.observe()
                     bid = spec.sha256d(c['block'].header.serialize())
                     ck.case(('node-probe', situation, c['label']), kind='relayed-while-%s/%s' % (situation, 'entered' if bid in after['blocks'] else 'refused'))
+                    if bid not in after['blocks'] and situation != 'bulk-download-pending' and \
+                            (before['blocks'] != after['blocks'] or before['head'] != after['head']):
+                        ck.violation('rejected-block-changed-chain-state', 'a node (%s) that refuses an unsolicited block (%s) no longer '
+                                     'serves the chain state it had before: %d -> %d blocks, head %s' % (situation.replace('-', ' '), c['label'],
+                                     len(before['blocks']), len(after['blocks']), 'changed' if before['head'] != after['head'] else 'unchanged'),
+                                     {'node_level': True, 'situation': situation, 'label': c['label'], 'block': c['block'].serialize().hex()})
+                        break
                     if bid in after['blocks']:
                         ck.violation('relayed-invalid-block-entered-state', 'a node that is %s accepts an unsolicited block (%s) that '
                                      'breaks the rules into its served chain state' % (situation.replace('-', ' '), c['label']),
